@@ -21,7 +21,7 @@ not per visitor event, which is how the code works (deferred flush).
 import z3
 from pyvc.spec import contract, class_spec, inline_ok
 from pyvc.values import (Int, Bool, Str, Opt, Rec, SeqOf, ObjOf, MutObjOf, ListK, ClosureOf, Const, SymSeq, PyList, Obj,
-                         SymClosure, OptV)
+                         SymClosure, OptV, RecorderK)
 from pyvc.speclib import AND, OR, NOT, IMPLIES, IFF, ITE, EQ, IS_NONE, VAL, ISINST, LEN, AT, smt
 from pyvc import speclib
 from .common import SERIALIZABLE, ANY, ATTRIBUTE, FIELD, PADDING, CONSTANT, VOID_T, COMPOSITE
@@ -243,6 +243,312 @@ class _DSBMakeUnion:
 
     def post(s):
         return {"union": s.self._is_union, "frame": dsb_unchanged(s.self, s.old, "_is_union")}
+
+
+# ------------------------------------------------------------------------------------------------ attributes (assumed)
+@contract(ATTRIBUTE + ".__init__", props=P)
+class _AttributeInitAssumed:
+    """Field(...) / Attribute(...): stores what it is given; names are C05's business (may reject)."""
+    params = dict(data_type=ObjOf(SERIALIZABLE), name=Str, doc=Str)
+    raises = {"InvalidNameError": None}
+    verify = False
+    assumed = "Attribute.__init__ stores type/name/doc as given (3 assignments); the name check is the subject of C05"
+
+    def post(s):
+        return {"type": SAME(s.self._data_type, s.data_type), "name": EQ(s.self._name, s.name), "doc": EQ(s.self._doc, s.doc)}
+
+
+@contract(PADDING + ".__init__", props=P)
+class _PaddingInitAssumed:
+    params = dict(data_type=ObjOf(SERIALIZABLE), doc=Str)
+    raises = {"TypeParameterError": lambda s: NOT(ISINST(s.data_type, "VoidType"))}
+    verify = False
+    assumed = "PaddingField.__init__ forwards (type, '', doc) to Attribute.__init__ after the void-type check"
+
+    def post(s):
+        return {"type": SAME(s.self._data_type, s.data_type), "name": EQ(s.self._name, ""), "doc": EQ(s.self._doc, s.doc)}
+
+
+def is_string_value(v):
+    return ISINST(v, "pydsdl._expression._primitive.String")
+
+
+@contract(CONSTANT + ".__init__", props=P)
+class _ConstantInitAssumed:
+    params = dict(data_type=ObjOf(SERIALIZABLE), name=Str, value=ObjOf(ANY), doc=Str)
+    raises = {"InvalidNameError": None, "InvalidTypeError": None, "InvalidConstantValueError": None}
+    verify = False
+    assumed = ("Constant.__init__ is verified under C12 (accepted iff compliant; value stored as given, a one-character "
+               "string as its code point); here only what it stores is used")
+
+    def post(s):
+        return {"type": SAME(s.self._data_type, s.data_type), "name": EQ(s.self._name, s.name), "doc": EQ(s.self._doc, s.doc),
+                "value-as-given": IMPLIES(NOT(is_string_value(s.value)), lambda: SAME(s.self._value, s.value))}
+
+
+@contract("pydsdl._expression._primitive.Rational.as_native_integer", props=P)
+class _AsNativeIntegerAssumed:
+    returns = Int
+    raises = {"InvalidOperandError": None}
+    verify = False
+    assumed = "Rational.as_native_integer: the numerator of an integral rational, InvalidOperandError otherwise (C04)"
+
+
+# ------------------------------------------------------------------------------------------------ level 2: type builder
+SITES = [DTB + ".on_field", DTB + ".on_constant", DTB + ".on_padding_field"]
+T_NONE, T_FIELD, T_CONST, T_PAD = 0, 1, 2, 3
+PendingK = ClosureOf(SITES, [ObjOf(SERIALIZABLE), Str, ObjOf(ANY)])
+
+
+@class_spec(RDF)
+class _RDFSpec:
+    fields = {}
+
+
+@class_spec(DTB)
+class _DTBSpec:
+    fields = dict(
+        _definition=ObjOf(RDF),
+        _lookup_definitions=SeqOf(ObjOf(RDF)),
+        _definition_visitors=SeqOf(ObjOf("pydsdl._dsdl.DefinitionVisitor")),
+        _print_output_handler=RecorderK("print_output_handler"),
+        _allow_unregulated_fixed_port_id=Bool,
+        _element_callback=PendingK,
+        _structs=ListK(MutObjOf(DSB)),
+        _is_deprecated=Bool,
+    )
+    mutable = ["_element_callback", "_structs", "_is_deprecated"]
+    owns_state = True
+
+
+_DSBSpec.owns_state = True
+from pyvc.spec import REG as _REG
+
+_REG.classes[DSB].owns_state = True
+
+
+class _View:
+    def __init__(self, **kw):
+        self.__dict__.update(kw)
+
+
+def PENDING(b):
+    """The pending attribute statement of a builder: tag (0 none, 1 field, 2 constant, 3 padding) and the statement's
+    type / name / value - read off the stored callback (abstraction function of `_element_callback`)."""
+    cb = b._element_callback
+    if smt():
+        from pyvc import mutstate
+
+        tag, slots, owner = mutstate.closure_view(speclib.CTX.engine, cb, SITES)
+        return _View(tag=tag, T=slots[0], name=slots[1], value=slots[2])
+    if cb is None:
+        return _View(tag=0, T=None, name=None, value=None)
+    import inspect
+    from pydsdl._data_type_builder import DataTypeBuilder
+
+    site = cb.__qualname__.split(".")[-3]
+    tag = {"on_field": 1, "on_constant": 2, "on_padding_field": 3}[site]
+    free = dict(zip(cb.__code__.co_freevars, [c.cell_contents for c in cb.__closure__]))
+    names = [n for n in inspect.signature(getattr(DataTypeBuilder, site)).parameters][1:]
+    slots = [free.get(n) for n in names] + [None, None, None]
+    return _View(tag=tag, T=slots[0], name=slots[1], value=slots[2])
+
+
+def SECS(b):
+    st = b._structs
+    return st.items if smt() else st
+
+
+def CUR(b):
+    return SECS(b)[-1]
+
+
+def NO_PENDING(b):
+    return PENDING(b).tag == 0
+
+
+def WF(b):
+    """Representation invariant of the builder (established by __init__, preserved by every on_* method)."""
+    p = PENDING(b)
+    return AND(IMPLIES(p.tag == T_PAD, lambda: ISINST(p.T, "VoidType")))
+
+
+def commit_clauses(s, doc):
+    """Effect of committing the pending statement of the pre-state (if any) with the given doc text: exactly one
+    attribute, built from exactly that statement, appended to the list of its kind in the CURRENT section; nothing else
+    moves."""
+    new_secs, old_secs = SECS(s.self), SECS(s.old)
+    cn, co = new_secs[-1], old_secs[-1]
+    p = PENDING(s.old)
+    is_f = OR(p.tag == T_FIELD, p.tag == T_PAD)
+    is_c = p.tag == T_CONST
+    out = {
+        "nothing-pending-nothing-committed": IMPLIES(p.tag == T_NONE, lambda: AND(SEQ_SAME(cn._fields, co._fields),
+                                                                                 SEQ_SAME(cn._constants, co._constants))),
+        "field-committed-once-at-the-end": IMPLIES(is_f, lambda: AND(SEQ_APPENDED(cn._fields, co._fields),
+                                                                    SEQ_SAME(cn._constants, co._constants))),
+        "field-as-declared": IMPLIES(is_f, lambda: AND(
+            SAME(LAST(cn._fields)._data_type, p.T),
+            EQ(LAST(cn._fields)._name, ITE(p.tag == T_PAD, "", p.name)),
+            EQ(LAST(cn._fields)._doc, doc),
+            IFF(ISINST(LAST(cn._fields), "PaddingField"), p.tag == T_PAD))),
+        "constant-committed-once-at-the-end": IMPLIES(is_c, lambda: AND(SEQ_APPENDED(cn._constants, co._constants),
+                                                                       SEQ_SAME(cn._fields, co._fields))),
+        "constant-as-declared": IMPLIES(is_c, lambda: AND(
+            SAME(LAST(cn._constants)._data_type, p.T),
+            EQ(LAST(cn._constants)._name, p.name),
+            EQ(LAST(cn._constants)._doc, doc),
+            IMPLIES(NOT(is_string_value(p.value)), lambda: SAME(LAST(cn._constants)._value, p.value)))),
+        "same-sections": len(new_secs) == len(old_secs),
+        "section-frame": dsb_unchanged(cn, co, "_fields", "_constants"),
+        "other-sections-untouched": AND(*[dsb_unchanged(a, b) for a, b in zip(new_secs[:-1], old_secs[:-1])]),
+        "deprecated-unchanged": EQ(s.self._is_deprecated, s.old._is_deprecated),
+    }
+    return out
+
+
+def commit_raises():
+    """What committing a pending statement may raise (conditions of the attribute constructors are C05/C12's)."""
+    return {
+        "BitLengthAnalysisError": lambda s: AND(OR(PENDING(s.old).tag == T_FIELD, PENDING(s.old).tag == T_PAD),
+                                                CUR(s.old)._is_union, CUR(s.old)._bit_length_computed_at_least_once),
+        "InvalidNameError": None,            # conditions of the attribute constructors: C05 (names), C12 (constants)
+        "InvalidTypeError": None,
+        "InvalidConstantValueError": None,
+    }
+
+
+def _one_sided(d):
+    """raises-clauses that are only claimed in the direction `raise X => cond` (the converse is C05/C12's business)."""
+    return d
+
+
+def havoc_sections(s):
+    out = [(s.self, "_element_callback")]
+    for sec in SECS(s.self):
+        out += [(sec, "_fields"), (sec, "_constants")]
+    return out
+
+
+def pending_is(b, tag, T=None, name=None, value=None):
+    p = PENDING(b)
+    cs = [p.tag == tag]
+    if T is not None:
+        cs.append(lambda: SAME(p.T, T))
+    if name is not None:
+        cs.append(lambda: EQ(p.name, name))
+    if value is not None:
+        cs.append(lambda: SAME(p.value, value))
+    return AND(*cs)
+
+
+def _attr_raises(extra=None):
+    d = {}
+    d["InvalidDirectiveError"] = lambda s: ISINST(VAL(CUR(s.old)._serialization_mode), "DelimitedSerializationMode") \
+        if not smt() else _is_delimited(CUR(s.old)._serialization_mode)
+    d.update(commit_raises())
+    return d
+
+
+def _is_delimited(m):
+    """The section's serialization mode is the delimited one (extent set)."""
+    if smt():
+        if isinstance(m, OptV):
+            return AND(NOT(speclib._b(m.is_none)), ISINST(m.val, "DelimitedSerializationMode"))
+        if m is None:
+            return False
+        return ISINST(m, "DelimitedSerializationMode")
+    return ISINST(m, "DelimitedSerializationMode")
+
+
+_TWO_SECTION_INSTANCES = lambda: [{"self._structs": ListK(MutObjOf(DSB))}, {"self._structs": ListK(MutObjOf(DSB), MutObjOf(DSB))}]
+
+
+@contract(DTB + ".on_header_comment", props=P)
+class _OnHeaderComment:
+    params = dict(comment=Str)
+    instances = _TWO_SECTION_INSTANCES
+    havoc = lambda s: [(CUR(s.self), "_doc")]
+
+    def post(s):
+        new_secs, old_secs = SECS(s.self), SECS(s.old)
+        return {"doc-of-current-section": EQ(CUR(s.self)._doc, s.comment),
+                "section-frame": dsb_unchanged(new_secs[-1], old_secs[-1], "_doc"),
+                "other-sections-untouched": AND(*[dsb_unchanged(a, b) for a, b in zip(new_secs[:-1], old_secs[:-1])]),
+                "pending-unchanged": _pending_same(s.self, s.old),
+                "deprecated-unchanged": EQ(s.self._is_deprecated, s.old._is_deprecated)}
+
+
+def _pending_same(new, old):
+    p, q = PENDING(new), PENDING(old)
+    return AND(p.tag == q.tag, IMPLIES(NOT(p.tag == T_NONE), lambda: AND(
+        SAME(p.T, q.T), IMPLIES(NOT(p.tag == T_PAD), lambda: EQ(p.name, q.name)),
+        IMPLIES(p.tag == T_CONST, lambda: SAME(p.value, q.value)))))
+
+
+@contract(DTB + ".on_attribute_comment", props=P)
+class _OnAttributeComment:
+    params = dict(comment=Str)
+    instances = _TWO_SECTION_INSTANCES
+    havoc = havoc_sections
+    raises = commit_raises()
+
+    def pre(s):
+        return {"wf": WF(s.self)}
+
+    def post(s):
+        out = {"nothing-pending-afterwards": NO_PENDING(s.self), "wf": WF(s.self)}
+        out.update(commit_clauses(s, s.comment))
+        return out
+
+
+@contract(DTB + ".on_field", props=P)
+class _OnField:
+    params = dict(field_type=ObjOf(SERIALIZABLE), name=Str)
+    instances = _TWO_SECTION_INSTANCES
+    havoc = havoc_sections
+    raises = _attr_raises()
+
+    def pre(s):
+        return {"wf": WF(s.self)}
+
+    def post(s):
+        out = {"exactly-this-statement-pending": pending_is(s.self, T_FIELD, s.field_type, s.name), "wf": WF(s.self)}
+        out.update(commit_clauses(s, ""))
+        return out
+
+
+@contract(DTB + ".on_constant", props=P)
+class _OnConstant:
+    params = dict(constant_type=ObjOf(SERIALIZABLE), name=Str, value=ObjOf(ANY))
+    instances = _TWO_SECTION_INSTANCES
+    havoc = havoc_sections
+    raises = _attr_raises()
+
+    def pre(s):
+        return {"wf": WF(s.self)}
+
+    def post(s):
+        out = {"exactly-this-statement-pending": pending_is(s.self, T_CONST, s.constant_type, s.name, s.value),
+               "wf": WF(s.self)}
+        out.update(commit_clauses(s, ""))
+        return out
+
+
+@contract(DTB + ".on_padding_field", props=P)
+class _OnPaddingField:
+    params = dict(padding_field_type=ObjOf(VOID_T))
+    instances = _TWO_SECTION_INSTANCES
+    havoc = havoc_sections
+    raises = _attr_raises()
+
+    def pre(s):
+        return {"wf": WF(s.self)}
+
+    def post(s):
+        out = {"exactly-this-statement-pending": pending_is(s.self, T_PAD, s.padding_field_type), "wf": WF(s.self)}
+        out.update(commit_clauses(s, ""))
+        return out
 
 
 # ------------------------------------------------------------------------------------------------ native harness
